@@ -357,6 +357,16 @@ impl Error {
         Error::syntax(code, json, index)
     }
 
+    /// Like `rebase`, for an error found while parsing the span of `json` that begins at `start`.
+    #[cold]
+    pub(crate) fn rebase_sub(self, json: &[u8], start: usize) -> Self {
+        if self.err.line == 0 {
+            return self;
+        }
+        let ErrorImpl { code, index, .. } = *self.err;
+        Error::syntax(code, json, (start + index).min(json.len()))
+    }
+
     /// Like `rebase`, for an error found in `String::from_utf8_lossy(json)`: its index counts the
     /// bytes of the repaired text and is mapped back to the input first.
     #[cold]
